@@ -28,6 +28,7 @@ ObjE(n) == Mk("obj", <<>>, n, UNDEF, <<>>)
 ParE(n) == Mk("param", <<>>, n, UNDEF, <<>>)
 VarE(n) == Mk("var", <<>>, n, UNDEF, <<>>)
 TimE == Mk("timing", <<>>, "start", UNDEF, <<>>)
+FlA(n, as) == Mk("fluent", as, n, UNDEF, <<>>)
 Un(op, a) == Mk(op, <<a>>, "", UNDEF, <<>>)
 Bin(op, a, b) == Mk(op, <<a, b>>, "", UNDEF, <<>>)
 Nary(op, as) == Mk(op, as, "", UNDEF, <<>>)
@@ -66,7 +67,12 @@ Quants == {Quant(q, << [name |-> "v", type |-> TUser("T1")] >>, Bin("eq", FlE("f
           \cup {Quant(q, << [name |-> "v", type |-> TI(Z(0), Z(3))] >>, Bin("le", VarE("v"), FlE("ib"))) : q \in {"exists", "forall"}}
           \cup {Quant("forall", << [name |-> "v", type |-> TUser("T")], [name |-> "w", type |-> TUser("T2")] >>,
                       Bin("or", Bin("eq", VarE("v"), VarE("w")), FlE("b")))}
-ExactCases == Tag("leaf", UserLeaves \cup BoolLeaves) \cup Tag("rel", Rels \cup EqU) \cup Tag("conn", Conn \cup Quants)
+\* fluent applications: the argument may be of a sub-type of the parameter's type
+Apps == {FlA("gT", <<a>>) : a \in {ObjE("oT"), ObjE("o1"), ObjE("o2"), ObjE("o11"), FlE("fT"), FlE("f2"), FlE("f11"), ParE("pT")}}
+        \cup {FlA("hI", <<a>>) : a \in {CE(Z(3)), CE(Z(0)), ParE("pi"), FlE("iz"), FlE("ibp")}}
+        \cup {Bin("eq", FlA("gT", <<ObjE("o11")>>), ObjE("o2")), Un("not", FlA("hI", <<CE(Z(5))>>)),
+               FlA("gT", <<FlA("gT", <<ObjE("o1")>>)>>)}
+ExactCases == Tag("app", Apps) \cup Tag("leaf", UserLeaves \cup BoolLeaves) \cup Tag("rel", Rels \cup EqU) \cup Tag("conn", Conn \cup Quants)
 
 \* ---------- operands of the equality pairs ----------
 EqOps == << FlE("b"), CE(BV(TRUE)), Un("not", FlE("c")), Bin("le", FlE("ib"), CE(Z(3))), ParE("pb"),
